@@ -184,6 +184,7 @@ func Main() {
 		byzProposer(r)
 		lap("byzProposer")
 		byzVotes(r)
+		voteRounds(r)
 		lap("byzVotes")
 	}
 	if only == "" || only == "proc" {
@@ -836,6 +837,43 @@ func (rn *Runner) ByzSession(l *live, r *rand.Rand, variant int) bool {
 
 // ---------------------------------------------------------------- block-sync processor
 
+// consistentCommitMutation restructures the block's last commit (an entry duplicated at the end, the last entry
+// dropped, two entries swapped, an absent entry appended) and recomputes the header's LastCommitHash, so that the
+// block is internally consistent. Returns "" if the block has no usable last commit.
+func consistentCommitMutation(pb *kproto.Block, rg *rand.Rand) string {
+	if pb == nil || pb.LastCommit == nil || len(pb.LastCommit.Signatures) == 0 {
+		return ""
+	}
+	sigs := pb.LastCommit.Signatures
+	what := ""
+	switch rg.Intn(4) {
+	case 0:
+		k := rg.Intn(len(sigs))
+		pb.LastCommit.Signatures = append(append([]kproto.CommitSig{}, sigs...), sigs[k])
+		what = fmt.Sprintf("last commit: entry %d duplicated at the end (%d entries for %d validators), commit hash recomputed", k, len(sigs)+1, len(sigs))
+	case 1:
+		pb.LastCommit.Signatures = append([]kproto.CommitSig{}, sigs[:len(sigs)-1]...)
+		what = "last commit: last entry dropped, commit hash recomputed"
+	case 2:
+		if len(sigs) < 2 {
+			return ""
+		}
+		cp := append([]kproto.CommitSig{}, sigs...)
+		cp[0], cp[1] = cp[1], cp[0]
+		pb.LastCommit.Signatures = cp
+		what = "last commit: entries 0 and 1 swapped, commit hash recomputed"
+	default:
+		pb.LastCommit.Signatures = append(append([]kproto.CommitSig{}, sigs...), kproto.CommitSig{BlockIdFlag: kproto.BlockIDFlagAbsent})
+		what = "last commit: an absent entry appended, commit hash recomputed"
+	}
+	cm, err := types.CommitFromProto(pb.LastCommit)
+	if err != nil {
+		return ""
+	}
+	pb.Header.LastCommitHash = cm.Hash().Bytes()
+	return what
+}
+
 // syncProcessor drives the block-sync processor (the code behind Receive for solicited
 // block responses: VerifyCommit, SaveBlock, ApplyBlock) with the genuine chain and
 // with structurally mutated blocks that still pass decoding.
@@ -901,7 +939,15 @@ func syncProcessor(r *core.Run) {
 					return
 				}
 				if x == mutateH {
-					label = fmt.Sprintf("block %d: %s", x, ApplyMutation(pb, rg.Intn(CountMutations(pb)), rg))
+					if what := consistentCommitMutation(pb, rg); what != "" && rg.Intn(4) == 0 {
+						// the last commit restructured and the header's commit hash made to agree with it: only the
+						// checks behind the decoder (VerifyCommit against the validator set) can refuse the block
+						label = fmt.Sprintf("block %d: %s", x, what)
+						c.Run.Count("processor_mutants_with_restructured_consistent_last_commit", 1)
+					} else {
+						pb = l.blockPB(x)
+						label = fmt.Sprintf("block %d: %s", x, ApplyMutation(pb, rg.Intn(CountMutations(pb)), rg))
+					}
 				}
 				blk := decode(pb)
 				// the scheduler hands the processor only blocks that answer a pending request: the height asked for
